@@ -276,16 +276,38 @@ func PoolPutter(i, j int) int { return int(pools[i].items[j].putter) }
 
 // ---------------------------------------------------------------- Mutex / RWMutex / Once
 
+// Lock identities are per run: a lock variable keeps (epoch, number) and gets a new number the first time it is met in
+// a run, so that locks inside short-lived objects of the code under test (a sync.Once per call, say) do not use the table
+// up. A run that meets more than MaxLocks locks treats the surplus as plain locks (no sim point): never a failure of
+// the code under test.
+var lockEpoch int32 = 1
+
+//go:norace
+func newLockEpoch() {
+	lockEpoch++
+	if lockEpoch >= 1<<19 {
+		lockEpoch = 1
+	}
+	nlocks = 0
+}
+
 //go:norace
 func lockID(p *int32) int32 {
-	if *p == 0 {
+	if *p>>12 != lockEpoch {
 		if nlocks >= MaxLocks {
-			panic("verifsync: too many locks")
+			return -1
 		}
 		nlocks++
-		*p = nlocks
+		*p = lockEpoch<<12 | nlocks
 	}
-	return *p - 1
+	return *p&0xfff - 1
+}
+
+//go:norace
+func lockPoint(kind int32, p *int32) {
+	if id := lockID(p); id >= 0 {
+		yield(kind, id)
+	}
 }
 
 //go:norace
@@ -301,7 +323,7 @@ type Mutex struct {
 
 func (m *Mutex) Lock() {
 	if scheduled() {
-		yield(KLock, lockID(&m.id))
+		lockPoint(KLock, &m.id)
 	}
 	m.mu.Lock()
 }
@@ -309,13 +331,17 @@ func (m *Mutex) Lock() {
 func (m *Mutex) Unlock() {
 	m.mu.Unlock()
 	if scheduled() {
-		yield(KUnlock, lockID(&m.id))
+		lockPoint(KUnlock, &m.id)
 	}
 }
 
 func (m *Mutex) TryLock() bool {
 	if scheduled() {
-		if yield(KTryLock, lockID(&m.id)) == 0 {
+		id := lockID(&m.id)
+		if id < 0 {
+			return m.mu.TryLock()
+		}
+		if yield(KTryLock, id) == 0 {
 			return false
 		}
 		m.mu.Lock()
@@ -331,7 +357,7 @@ type RWMutex struct {
 
 func (m *RWMutex) Lock() {
 	if scheduled() {
-		yield(KLock, lockID(&m.id))
+		lockPoint(KLock, &m.id)
 	}
 	m.mu.Lock()
 }
@@ -339,13 +365,13 @@ func (m *RWMutex) Lock() {
 func (m *RWMutex) Unlock() {
 	m.mu.Unlock()
 	if scheduled() {
-		yield(KUnlock, lockID(&m.id))
+		lockPoint(KUnlock, &m.id)
 	}
 }
 
 func (m *RWMutex) RLock() {
 	if scheduled() {
-		yield(KRLock, lockID(&m.id))
+		lockPoint(KRLock, &m.id)
 	}
 	m.mu.RLock()
 }
@@ -353,7 +379,7 @@ func (m *RWMutex) RLock() {
 func (m *RWMutex) RUnlock() {
 	m.mu.RUnlock()
 	if scheduled() {
-		yield(KRUnlock, lockID(&m.id))
+		lockPoint(KRUnlock, &m.id)
 	}
 }
 
@@ -376,6 +402,10 @@ type Once struct {
 func (o *Once) Do(f func()) {
 	if scheduled() {
 		id := lockID(&o.id)
+		if id < 0 {
+			o.once.Do(f)
+			return
+		}
 		yield(KLock, id)
 		o.once.Do(f)
 		yield(KUnlock, id)
@@ -496,6 +526,7 @@ func OpenPipes() {
 //go:norace
 func SetScheduled(on bool) {
 	if on {
+		newLockEpoch()
 		mode = 1
 	} else {
 		mode = 0
